@@ -203,15 +203,41 @@ def main():
         U = ["/- GENERATED by tools/gen_lean.py: effective cfb_uppercase_char, dumped through hook H2",
              "   (every scalar whose image differs from itself), plus the keys of uppercase.txt. -/",
              "namespace CfbVerif.Gen\n",
-             "def upperPairs : Array (Nat × Nat) := #["]
-        U.append(",\n".join("  (%d, %d)" % p for p in pairs))
-        U.append("]\n")
+             "/-- a balanced search tree (kernel-friendly and fast when compiled) -/",
+             "inductive UTree | leaf | node (l : UTree) (k v : Nat) (r : UTree)\n",
+             "def UTree.find : UTree → Nat → Option Nat",
+             "  | .leaf, _ => none",
+             "  | .node l k v r, c => if c = k then some v else if c < k then l.find c else r.find c\n"]
+        counter = [0]
+        defs = []
+
+        def inline(lo, hi):
+            if lo >= hi:
+                return ".leaf"
+            mid = (lo + hi) // 2
+            return "(.node %s %d %d %s)" % (inline(lo, mid), pairs[mid][0], pairs[mid][1], inline(mid + 1, hi))
+
+        def emit(lo, hi):
+            if hi - lo <= 15:
+                return inline(lo, hi)
+            mid = (lo + hi) // 2
+            l, r = emit(lo, mid), emit(mid + 1, hi)
+            name = "upperTree_%d" % counter[0]
+            counter[0] += 1
+            defs.append("def %s : UTree := .node %s %d %d %s" % (name, l, pairs[mid][0], pairs[mid][1], r))
+            return name
+        top = emit(0, len(pairs))
+        U.extend(defs)
+        U.append("def upperTree : UTree := %s\n" % top)
+        for i in range(0, len(pairs), 100):
+            U.append("def upperPairs_%d : List (Nat × Nat) := [%s]" % (i // 100, ", ".join("(%d, %d)" % q for q in pairs[i:i + 100])))
+        U.append("def upperPairs : List (List (Nat × Nat)) := [%s]\n" % ", ".join("upperPairs_%d" % (i // 100) for i in range(0, len(pairs), 100)))
         keys = sorted(ord(a) for a, _ in overrides) if overrides else []
         U.append("def upperOverrideKeys : List Nat := %s" % keys)
         U.append("\nend CfbVerif.Gen")
         write_if_changed(upath, "\n".join(U) + "\n")
     elif not os.path.exists(upath):
-        write_if_changed(upath, "namespace CfbVerif.Gen\ndef upperPairs : Array (Nat × Nat) := #[]\ndef upperOverrideKeys : List Nat := []\nend CfbVerif.Gen\n")
+        write_if_changed(upath, "namespace CfbVerif.Gen\ninductive UTree | leaf | node (l : UTree) (k v : Nat) (r : UTree)\ndef UTree.find : UTree → Nat → Option Nat\n  | .leaf, _ => none\n  | .node l k v r, c => if c = k then some v else if c < k then l.find c else r.find c\ndef upperTree : UTree := .leaf\ndef upperPairs : List (List (Nat × Nat)) := []\ndef upperOverrideKeys : List Nat := []\nend CfbVerif.Gen\n")
 
     for d in drift:
         print("DRIFT", d)
